@@ -33,7 +33,8 @@ IdsOk(o) ==
    /\ \A k1 \in 1..NP, k2 \in 1..NP : k1 # k2 =>
          /\ {x + COff(o, k1) : x \in SeqSet(probes[k1].sc)} \cap {x + COff(o, k2) : x \in SeqSet(probes[k2].sc)} = {}
          /\ {x + TOff(o, k1) : x \in 0..(probes[k1].ntm - 1)} \cap {x + TOff(o, k2) : x \in 0..(probes[k2].ntm - 1)} = {}
-ClusterProbesP(o) == \A k \in 1..NP : \A x \in SeqSet(probes[k].sc) :
+\* (every id that carries spikes OR a metadata row - an id emptied by curation may still have its row)
+ClusterProbesP(o) == \A k \in 1..NP : \A x \in SeqSet(probes[k].sc) \cup UNION {{e[1] : e \in SeqSet(probes[k].tsv[nm])} : nm \in TsvNames} :
    x + COff(o, k) + 1 \in 1..Len(o.cprobes) /\ o.cprobes[x + COff(o, k) + 1] = k - 1
 MetadataP(o) == \A nm \in TsvNames :
    /\ SeqSet(o.tsv[nm]) = UNION {{<<e[1] + COff(o, k), e[2]>> : e \in SeqSet(probes[k].tsv[nm])} : k \in 1..NP}
